@@ -37,11 +37,16 @@ def model_checking(ctx):
         ("reach-2", lambda: ctx.tlc("UpdaterGen", cfg_text=vlib.cfg_text(
             constants={"Vs": "{1, 4}", "MaxLen": 0, "Emit": False}, invariants=invs, view="View"),
             workers=3, timeout=1500)),
-        # three versions: breadth first to a bounded depth (quick) / deeper (thorough)
-        ("reach-3", lambda: ctx.tlc("UpdaterGen", cfg_text=vlib.cfg_text(
-            constants={"Vs": "{2, 5, 6}", "MaxLen": 2 if quick else 4, "Emit": False}, invariants=invs,
-            view="View", constraint="Depth"), workers=3 if quick else 8, timeout=2400)),
+        # three versions, breadth first to a bounded depth
+        ("reach-3-bounded", lambda: ctx.tlc("UpdaterGen", cfg_text=vlib.cfg_text(
+            constants={"Vs": "{2, 5, 6}", "MaxLen": 2 if quick else 3, "Emit": False}, invariants=invs,
+            view="View", constraint="Depth"), workers=3, timeout=2400)),
     ]
+    if not quick:
+        # every reachable state of a three-version resource (dev version, a stable one, a pre-release)
+        jobs.append(("reach-3", lambda: ctx.tlc("UpdaterGen", cfg_text=vlib.cfg_text(
+            constants={"Vs": "{1, 2, 4}", "MaxLen": 0, "Emit": False}, invariants=invs[:3], view="View"),
+            workers=8, timeout=3000)))
     res = ctx.pmap(lambda j: (j[0], j[1]()), jobs, par=len(jobs))
     return {name: {"states": r.distinct, "transitions": r.generated, "depth": r.depth} for name, r in res}
 
@@ -177,10 +182,12 @@ def _threadsafe_scratch(ctx):
 def run(ctx):
     _threadsafe_scratch(ctx)
     ctx.go_build("upd")
-    out = ctx.pmap(lambda f: f(ctx), [model_checking, gen_histories, run_names], par=3)
-    mc, scripts, (vecs, names_ok, names_mc) = out
+    def histories(c):
+        sc = gen_histories(c)
+        return sc, run_histories(c, sc)
+    out = ctx.pmap(lambda f: f(ctx), [model_checking, histories, run_names], par=3)
+    mc, (scripts, (accepted, nevents, nrun)), (vecs, names_ok, names_mc) = out
     mc["names-laws"] = names_mc
-    accepted, nevents, nrun = run_histories(ctx, scripts)
 
     def nontrivial(s):
         ops = [st["op"] for st in s["steps"]]
